@@ -45,7 +45,7 @@ Lemma reg_spec n0 m t s :
   /\ fillsP H (sub_of s) (only s (is_root (aroot s))) (hp m) (hp m1).
 Proof.
   intros Hw Hr Hs Hc Hin m1. unfold m1, reg.
-  destruct (mvcalc_spec H (cfuel m) true (is_root (aroot s)) (hp m) s) as (h1 & E1 & F1); auto.
+  destruct (mvcalc_spec H (cfuel m) true (is_root (aroot s)) (hp m) s) as (h1 & E1 & F1 & _); auto.
   { apply depth_fuel; auto. }
   rewrite E1. simpl. split; [|split; [reflexivity|split]]; auto.
   - intros x Hx. simpl in *. specialize (F1 x). rewrite Hw in F1 by auto. auto.
